@@ -194,3 +194,11 @@ Print Assumptions LexTables_lookup_keys.
 Theorem LexTables_operators : gen_operators = map (fun '(b, t) => (string_of_bytes b, ttype_name t)) operators.
 Proof. reflexivity. Qed.
 Print Assumptions LexTables_operators.
+
+(* the named escapes: what a backslash followed by a character stands for - the source's if-chain, branch for branch *)
+Fixpoint esc_lookup (l : list (N * N)) (c : N) : N :=
+  match l with [] => c | (k, v) :: r => if N.eqb c k then v else esc_lookup r c end.
+
+Theorem LexTables_escapes : forall c, escaped_rune c = esc_lookup gen_escapes c.
+Proof. intros c. reflexivity. Qed.
+Print Assumptions LexTables_escapes.
